@@ -19,7 +19,7 @@ CHECKS = {
          "Bit flips confined to regions where the Internet checksum guarantees detection; PRF stream contents; virtual time owned by the harness.",
          "DESIGN.md 3/C01"),
  "C02": ("invariant + deadlock/livelock detection in a closed simulated world driven only by poll_at, frame arrival and API calls",
-         "The C01 world with faults confined to a finite prefix of frames; both applications write, read with pauses (zero windows) and close. After every poll: unacked data/SYN/FIN implies finite Interface::poll_at. The world may never go quiescent before transfer and shutdown complete (exact deadlock detection, no wall-clock timeout), and no 30 virtual minutes without application progress once the link is reliable (classified by which side ignores ACKs). The driver follows poll_at literally (a deadline at or before now is served at exactly now; three idle polls in a row there = stuck). Six stall / livelock root causes fixed in /repo, none open.",
+         "The C01 world with faults confined to a finite prefix of frames; both applications write, read with pauses (zero windows) and close; a quarter of the worlds (part reuse) run on socket objects that have already carried and aborted another connection. After every poll: unacked data/SYN/FIN implies finite Interface::poll_at. The world may never go quiescent before transfer and shutdown complete (exact deadlock detection, no wall-clock timeout), and no 30 virtual minutes without application progress once the link is reliable (classified by which side ignores ACKs). The driver follows poll_at literally (a deadline at or before now is served at exactly now; three idle polls in a row there = stuck). Six stall / livelock root causes fixed in /repo, none open.",
          "The harness owns clock and schedule; cap hits with recent progress are inconclusive, never violations; applications read out remaining data as soon as the connection is over.",
          "DESIGN.md 3/C02"),
  "C03": ("crash/hang-oracle fuzzing of Interface::poll by generated frame sequences (random, grammar, mutated, reflected) + liveness probe",
